@@ -385,6 +385,9 @@ class Sim:
                                 and v.get("ty", "").startswith("[u8") else Tup(items)
                         if "tuple" in j:
                             return Tup([build(x) for x in j["tuple"]])
+                        if "enum" in j:
+                            # a field-less enum stored in a table (`static BYTE_CLASS: [ByteClass; 256]`)
+                            return Adt(j["enum"], int(j["variant"]), [], j.get("vname"))
                         return UNK
                     self.statics[k] = build(v["value"])
                     continue
@@ -416,6 +419,15 @@ class Sim:
             f = c.fn(path)
             if f is not None:
                 return f
+        # a function of another analysed crate named through a re-export (`lexpr::Value::as_bool` for
+        # `lexpr::value::Value::as_bool`): the one function of that crate whose path ends that way
+        if "::" in path and not path.startswith("<"):
+            head, rest = path.split("::", 1)
+            for c in self.crates:
+                if c.name == head and (crate_name is None or c.name == crate_name):
+                    hits = [g for g in c.fns if g.kind != "closure" and (g.path == rest or g.path.endswith("::" + rest))]
+                    if len(hits) == 1:
+                        return hits[0]
         return None
 
     def find_dp(self, dp):
